@@ -12,8 +12,8 @@ from harness.props import c06
 from harness.validate import validate
 
 FLAGS = {"twin_diverged", "repeat", "none_premature", "initial_order", "scheduler_raised", "outside_domain"}
-DILL_KINDS = ["fifo_random", "fifo_grid", "hb_random", "hb_random_promo", "synchb", "dehb", "pbt", "regevo"]
-STATE_KINDS = ["fifo_random", "fifo_grid", "hb_random"]
+DILL_KINDS = ["fifo_random", "fifo_random_dup", "fifo_grid", "hb_random", "hb_random_promo", "synchb", "dehb", "pbt", "regevo"]
+STATE_KINDS = ["fifo_random", "fifo_random_dup", "fifo_grid", "hb_random"]
 GP_DILL = ["fifo_bayesopt", "hb_bayesopt"]
 GP_STATE = ["fifo_bayesopt", "hb_bayesopt"]
 
@@ -40,12 +40,24 @@ def twin_run(kind, name, p2e, seed, hist, how):
     return a, b
 
 
-def campaign(rep, kinds, how, hists, seed, per_kind, tag):
+def deep_gp_history(n_trials, restore_after):
+    """A sequential history: each trial is suggested and reports until it is stopped or reaches the maximum; a snapshot /
+    restore is taken after the trials listed in restore_after."""
+    h = []
+    for t in range(n_trials):
+        h.append({"a": "Suggest"})
+        h.extend({"a": "Result", "t": t} for _ in range(9))
+        if t in restore_after:
+            h.append({"a": "Restore"})
+    return h
+
+
+def campaign(rep, kinds, how, hists, seed, per_kind, tag, space=None):
     traces, meta = [], []
     for n, kind in enumerate(kinds):
         for j in range(per_kind):
-            name = list(c06.P2E)[(j + n) % len(c06.P2E)]
-            p2e = c06.P2E[name][(j // 3 + j) % len(c06.P2E[name])]
+            name = space or list(c06.P2E)[(j + n) % len(c06.P2E)]
+            p2e = [] if space else c06.P2E[name][(j // 3 + j) % len(c06.P2E[name])]
             h = hists[(j * 5 + n) % len(hists)]
             _, b = twin_run(kind, name, p2e, seed + j, h, how)
             traces.append(b.trace(len(traces) + 1))
@@ -92,8 +104,15 @@ def run(rep, tier, seed):
     total = {}
     for kinds, how, per, tag in ((DILL_KINDS, "dill", n, "dill"), (STATE_KINDS, "state", n, "get_state/clone_from_state"),
                                  (GP_DILL, "dill", 3 if tier == "quick" else 30, "gp-dill"),
-                                 (GP_STATE, "state", 3 if tier == "quick" else 30, "gp-state")):
+                                 (GP_STATE, "state", 8 if tier == "quick" else 40, "gp-state")):
         c = campaign(rep, kinds, how, hists, seed * 100 + 11, per, tag)
+        for k, v in c.items():
+            total[k] = total.get(k, 0) + v
+    # model-based suggestions after the restore, with the target resource of the multi-fidelity searcher still moving
+    deep = [deep_gp_history(9, ra) for ra in ([1, 3], [2, 5], [0, 4, 6])][: (2 if tier == "quick" else 3)]
+    for how in ("state", "dill"):
+        c = campaign(rep, ["hbdeep_bayesopt"], how, deep, seed * 100 + 31, len(deep) if tier == "quick" else 2 * len(deep),
+                     f"gp-deep-{how}", space="sc")
         for k, v in c.items():
             total[k] = total.get(k, 0) + v
     rep.extra["flags_seen_in_traces"] = total
